@@ -133,6 +133,36 @@ func runC04(r *Runner, g *Gen, tier string) string {
 		// JSON-any arrays: count, then each entry length-prefixed {type = field 2 varint 6 (array)?, value}
 		r.Do(L(A("jhost"), A("arr"), A(hx(jsonNest(depth)))), true, "jhost.nested-counts")
 	}
+	// 2a'. map entries that leave the key or the value out, for key and value types wider than any fixed-size
+	// zero block a map codec might keep (1 KB / 4 KB / 64 KB values; a wide key)
+	{
+		wide := func(n int) *TyDef {
+			var fs []*FieldDef
+			for i := 0; i < n; i++ {
+				fs = append(fs, F(fmt.Sprintf("F%d", i), fmt.Sprint(i+1), B("uint64")))
+			}
+			return Struct(fs...)
+		}
+		for _, w := range []int{127, 128, 129, 140, 520, scale(tier, 600, 8200)} {
+			for _, t := range []*TyDef{Map(B("str"), wide(w)), Map(wide(w), B("str")), Map(B("int"), Ptr(wide(w))),
+				Struct(&FieldDef{Name: "M", Exported: true, Plenc: "1,proto", T: Map(B("str"), wide(w))})} {
+				var inputs [][]byte
+				if t.K == "map" {
+					inputs = [][]byte{{0x01, 0x03, 0x0a, 0x01, 0x61}, {0x01, 0x02, 0x08, 0x02}, {0x01, 0x00}, {0x02, 0x03, 0x0a, 0x01, 0x61, 0x00}, {0x01, 0x02, 0x12, 0x00}}
+				} else {
+					inputs = [][]byte{{0x0a, 0x03, 0x0a, 0x01, 0x61}, {0x0a, 0x00}, {0x0a, 0x02, 0x12, 0x00}}
+				}
+				for _, in := range inputs {
+					r.Do(codecOp("dec", "00", t, "", A(hx(in)), A("zero")), true, "dec.wide-map-entry")
+					r.Do(codecOp("dec", "00", t, "", A(hx(in)), A("zero")), true, "dec.wide-map-entry")
+				}
+			}
+		}
+		// the BigQuery timestamp codec behind a nil pointer and as a map key (its New() must hand out a whole time.Time)
+		for i := 0; i < scale(tier, 3, 40); i++ {
+			r.Do(L(A("bqptr"), A(fmt.Sprint(50+i*40))), true, "bqptr")
+		}
+	}
 	// 2b. the JSON-any decoders and their descriptor walk: exhaustive short strings, then mutated valid encodings
 	jalpha := []byte{0x00, 0x01, 0x02, 0x03, 0x05, 0x06, 0x07, 0x08, 0x0a, 0x10, 0x12, 0x18, 0x1a, 0x1b, 0x7f, 0x80, 0xff}
 	jmax := scale(tier, 3, 4)
